@@ -46,6 +46,22 @@ def entry(rng, extra_p=0.4):
             e[v] = value(rng, v)
     if rng.random() < 0.5:
         e[15] = rng.choice(["foo-1.0", "a-b-2.3nb4", "nodash", "-1.0", "x-", "é-1", "py39-foo-1.0nb12"])
+    # correlated values: real entries carry values derived from one another (FILE_NAME = PKGNAME.tgz, equal paths, equal
+    # sizes); a setter that looks at another variable's current value shows only on such entries, and only for one order
+    # of the calls (the two histories of one entry are shuffled independently)
+    r = rng.random()
+    if r < 0.12:
+        e[7] = e[15] + ".tgz"
+    elif r < 0.16:
+        e[7] = e[15]
+    elif r < 0.20:
+        e[18] = e[16]
+    elif r < 0.24:
+        e[8] = e[21]
+    elif r < 0.28:
+        e[2] = e[15]
+    elif r < 0.31:
+        e[9] = e[16]
     return e
 
 
